@@ -177,6 +177,13 @@ var patternsB = []patternB{
 	// locking selections by size
 	{"selectsize_selectsize", [][]opB{{{"selectsize", "B"}}, {{"selectsize", "B"}}, {{"selectsize", "B"}}}, false},
 	{"selectsize_select", [][]opB{{{"selectsize", "B"}}, {{"select", "B:1200"}}, {{"dotx", "sB4"}}}, false},
+	// two blocks that extend the same tip, played at once while a submission is in flight
+	{"play_play_dotx", [][]opB{{{"play", "k2"}}, {{"play", "j2"}}, {{"dotx", "tC"}}}, false},
+	// four submissions around two outputs (r1 = B's genesis output, s0): one holds an output while a
+	// two-output spender takes the other one and fails on it; then two more want the output it took
+	// (the first and the last share a thread: three threads; variant b for the other lock-key order)
+	{"partial_lock_then_two_more_a", [][]opB{{{"dotx", "sB1"}, {"dotx", "sB5"}}, {{"dotx", "sB3"}}, {{"dotx", "sB4"}}}, true},
+	{"partial_lock_then_two_more_b", [][]opB{{{"dotx", "sB5"}, {"dotx", "sB2"}}, {{"dotx", "sB3"}}, {{"dotx", "sB1"}}}, true},
 	{"play_vs_dotx", [][]opB{{{"play", "k2"}}, {{"dotx", "wB"}}, {{"dotx", "wC"}}}, false},
 	{"lock_rrww3", [][]opB{{{"dotx", "rD"}, {"dotx", "wC"}}, {{"dotx", "rA"}}, {{"dotx", "wB"}}}, true},
 	{"lock_rrww4", [][]opB{{{"dotx", "rD"}}, {{"dotx", "rA"}}, {{"dotx", "wB"}}, {{"dotx", "wC"}}}, true},
@@ -214,7 +221,7 @@ func newB(p patternB, withKV bool) func() vsched.Instance {
 		vhook.Capture()
 		baseOnce.Do(func() {
 			b := chain.New(u, chain.Menu{})
-			for _, ev := range []string{"recv:k1", "sync", "recv:k2"} {
+			for _, ev := range []string{"recv:k1", "sync", "recv:k2", "recv:j2"} {
 				if o := b.Apply(ev); strings.HasPrefix(o, "ERR") || strings.HasPrefix(o, "refused") {
 					panic("c12 fixture: " + ev + ": " + o)
 				}
@@ -227,7 +234,7 @@ func newB(p patternB, withKV bool) func() vsched.Instance {
 		if err != nil {
 			panic(err)
 		}
-		inst := chain.NewOn(u, w, []string{"k1", "k2"}, chain.Menu{})
+		inst := chain.NewOn(u, w, []string{"k1", "k2", "j2"}, chain.Menu{})
 		if withKV {
 			inst.W.Space.Hook = func(store, kind string) {
 				if kind == "batch" {
@@ -536,6 +543,9 @@ func run(tier core.Tier) *core.Report {
 			if tier == core.Quick {
 				b = 2
 			}
+		}
+		if strings.HasPrefix(p.Name, "partial_lock_") {
+			b = 3 // the double release needs three preemptions; three threads keep that affordable
 		}
 		if tier == core.Quick && p.Name == "lock_rrww4" {
 			continue
